@@ -46,7 +46,7 @@ type SeqCtx struct {
 	depthDone int
 	caseNo    int64
 	known     map[string]*Violation
-	seenBase int64 // states counted before the last ResetSeen
+	seenBase  int64 // states counted before the last ResetSeen
 	// cases that violated during the search but not on their own (see Fail)
 	unreproduced int
 	// OpsPrefix is put in front of the operations of a violation (the parameters a job loops over outside bfs),
